@@ -40,12 +40,17 @@ class _MemoModel:
         return functools.partial(self.__call__, obj)
 
     def __call__(self, link, duration):
+        # The real cache is a dict keyed by (link, duration): an entry is found only if the *current* hash of the link equals
+        # the hash it had when the entry was stored.  A link hashes through its reference operation, whose dataclass hash
+        # includes its (mutable) relation -- re-linking an operation therefore silently orphans every memo entry of the links
+        # that refer to it.  The model reproduces this: entries remember the hash at insertion time.
+        h = hash(link)
         lst = self.entries.setdefault(id(link), (link, []))[1]
-        for d, v in lst:
-            if d is duration or d == duration:
+        for eh, d, v in lst:
+            if eh == h and (d is duration or d == duration):
                 return v
         v = self.fn(link, duration=duration)
-        lst.append((duration, v))
+        lst.append((h, duration, v))
         return v
 
     def cache_clear(self):
